@@ -261,6 +261,7 @@ pub struct HookRecord {
     pub start_time_ns: u64,
 }
 const HOOKS_SEEN: Item<Vec<HookRecord>> = Item::new("hooks_seen");
+const HOOK_FAILS: Item<bool> = Item::new("hook_fails");
 
 fn hookrx_instantiate(deps: DepsMut, _env: Env, _info: MessageInfo, _msg: Empty) -> StdResult<Response> {
     HOOKS_SEEN.save(deps.storage, &vec![])?;
@@ -269,9 +270,20 @@ fn hookrx_instantiate(deps: DepsMut, _env: Env, _info: MessageInfo, _msg: Empty)
 #[cw_serde]
 pub enum HookRxExec {
     EpochChangedHook(white_whale_std::epoch_manager::hooks::EpochChangedHookMsg),
+    /// fault injection: while set, every notification is answered with an error
+    SetFail { fail: bool },
 }
 fn hookrx_execute(deps: DepsMut, _env: Env, _info: MessageInfo, msg: HookRxExec) -> StdResult<Response> {
-    let HookRxExec::EpochChangedHook(msg) = msg;
+    let msg = match msg {
+        HookRxExec::SetFail { fail } => {
+            HOOK_FAILS.save(deps.storage, &fail)?;
+            return Ok(Response::new());
+        }
+        HookRxExec::EpochChangedHook(msg) => msg,
+    };
+    if HOOK_FAILS.may_load(deps.storage)?.unwrap_or(false) {
+        return Err(StdError::generic_err("hook_rx: injected failure"));
+    }
     let mut v = HOOKS_SEEN.load(deps.storage)?;
     v.push(HookRecord { epoch_id: msg.current_epoch.id, start_time_ns: msg.current_epoch.start_time.nanos() });
     HOOKS_SEEN.save(deps.storage, &v)?;
